@@ -4,6 +4,8 @@ CONSTANTS
   SortedLen = 0
   NoForeignLen = 4
   OtherLen = 2
+  WrapLen = 3
+  MatchKey = "annotation"
   ClipValidator = "after"
 CONSTRAINT Export
 INVARIANT ImplIffValid
